@@ -823,16 +823,40 @@ def _nb_binop(op, ca, da, cb, db):
     return ndarray_impl(_obj0(r), rdt)
 
 
-def bitwise_xor(a, b, **kw): return _binop('xor', _w(a) if not isinstance(a, (int, builtins.bool)) else a, b)
-def bitwise_and(a, b, **kw): return _binop('and', _w(a) if not isinstance(a, (int, builtins.bool)) else a, b)
-def bitwise_or(a, b, **kw): return _binop('or', _w(a) if not isinstance(a, (int, builtins.bool)) else a, b)
-def add(a, b, **kw): return _binop('add', _w(a), b)
-def subtract(a, b, **kw): return _binop('sub', _w(a), b)
-def multiply(a, b, **kw): return _binop('mul', _w(a), b)
-def divide(a, b, **kw): return _binop('truediv', _w(a), b)
+def _bin_kw(op, a, b, kw):
+    """Binary ufunc call with numpy's keyword arguments: out= (written in place, same_kind casting checked by real numpy on
+    empty probes) and dtype=; anything else is refused rather than ignored."""
+    out = kw.pop('out', None)
+    dtype = kw.pop('dtype', None)
+    casting = kw.pop('casting', 'same_kind')
+    if kw:
+        raise E.ShimUnsupported(f'ufunc keyword arguments {sorted(kw)}')
+    if dtype is not None:
+        dt = rnp.dtype(dtype)
+        a = _w(a).astype(dt)
+        b = _w(b).astype(dt) if not isinstance(b, (int, float, builtins.bool)) else b
+    r = _binop(op, a, b)
+    if out is None:
+        return r
+    if isinstance(out, tuple):
+        out, = out
+    o = _w(out)
+    if not rnp.can_cast(r.dtype, o.dtype, casting=casting):
+        raise TypeError(f"Cannot cast ufunc '{op}' output from {r.dtype!r} to {o.dtype!r} with casting rule '{casting}'")
+    o[...] = r.astype(o.dtype) if r.dtype != o.dtype else r
+    return out
+
+
+def bitwise_xor(a, b, **kw): return _bin_kw('xor', _w(a) if not isinstance(a, (int, builtins.bool)) else a, b, kw)
+def bitwise_and(a, b, **kw): return _bin_kw('and', _w(a) if not isinstance(a, (int, builtins.bool)) else a, b, kw)
+def bitwise_or(a, b, **kw): return _bin_kw('or', _w(a) if not isinstance(a, (int, builtins.bool)) else a, b, kw)
+def add(a, b, **kw): return _bin_kw('add', _w(a), b, kw)
+def subtract(a, b, **kw): return _bin_kw('sub', _w(a), b, kw)
+def multiply(a, b, **kw): return _bin_kw('mul', _w(a), b, kw)
+def divide(a, b, **kw): return _bin_kw('truediv', _w(a), b, kw)
 true_divide = divide
-def left_shift(a, b, **kw): return _binop('lshift', _w(a), b)
-def right_shift(a, b, **kw): return _binop('rshift', _w(a), b)
+def left_shift(a, b, **kw): return _bin_kw('lshift', _w(a), b, kw)
+def right_shift(a, b, **kw): return _bin_kw('rshift', _w(a), b, kw)
 def less(a, b): return _binop('lt', _w(a), b)
 def greater(a, b): return _binop('gt', _w(a), b)
 def equal(a, b): return _binop('eq', _w(a), b)
